@@ -25,6 +25,10 @@ def counts(tier):
 
 def crit_src(rng):
     g = gen.G(rng, tables=False, allow_funcs=False, allow_case=False)
+    if rng.random() < 0.08:
+        # a criterion that refers to a table outside the statement (correlated use): switches qualification on for the
+        # whole statement, whichever where() call it arrives in
+        return rng.choice(["(T('t').a == T('outer_t').k)", "(F('b') > T('outer_t').k)"])
     return g.crit(rng.choice([0, 0, 1, 2]))
 
 
